@@ -11,7 +11,7 @@ pub fn meta() -> Meta {
     Meta {
         id: "C17",
         level: "exploration",
-        rule: "planted-SNP families through `ska build` + `ska lo` (CLI, one thread, hash seeds owned by the shim: 2 quick / 3 thorough): ancestors of length 10k+1 whose (k-1)-mers are unique on both strands; k in {7,9,15,21,31,33} (thorough: every odd k in 7..33); sites = every non-empty subset of the grid {3k, 5k, 7k+1} (spacing exactly 2k and 2k+1, margins 3k); allele assignments = every biallelic split for n=3,4,5 samples, every triallelic assignment for n=3 (thorough: n=4) and carrier patterns for n=6,10 (thorough: 8); sample orientations; without reference and (k>=15) with the ancestor as reference, the reference file laid out in one of four ways chosen per case (one line; lines of 60; lines of 70 with CRLF; header with description, lines of 50, no final newline); -m in {0, 0.1, 0.2}. Oracle without reference: the column multiset modulo whole-column complement equals the planted one. With reference (soundness): every VCF record lies at a planted site, REF is the ancestor base, every given genotype decodes to that sample's true base, pseudo-genomes have the ancestor's length and agree with each sample at every called position. Well-formedness family outside the premise (SNP pairs at every distance 1..2k, SNP next to an indel, three alleles at adjacent sites, a sample lacking a region): equal sequence lengths, >= 2 distinct A/C/G/T per column, missing fraction <= m. Cases whose derived samples break (k-1)-mer uniqueness are trivial and not judged for completeness. Every 48th case is repeated through the dev-profile build of the CLI (arithmetic overflow checks on) and must get the same verdict.".into(),
+        rule: "planted-SNP families through `ska build` + `ska lo` (CLI, one thread, hash seeds owned by the shim: 2 quick / 3 thorough): ancestors of length 10k+1 whose (k-1)-mers are unique on both strands; k in {7,9,15,21,31,33} (thorough: every odd k in 7..33); sites = every non-empty subset of the grid {3k, 5k, 7k+1} (spacing exactly 2k and 2k+1, margins 3k); allele assignments = every biallelic split for n=3,4,5 samples, every triallelic assignment for n=3 (thorough: n=4) and carrier patterns for n=6,10 (thorough: 8); sample orientations; without reference and (k>=15) with the ancestor as reference, the reference file laid out in one of four ways chosen per case (one line; lines of 60; lines of 70 with CRLF; header with description, lines of 50, no final newline); -m in {0, 0.1, 0.2}. Oracle without reference: the column multiset modulo whole-column complement equals the planted one. With reference (soundness): every VCF record lies at a planted site, REF is the ancestor base, every given genotype decodes to that sample's true base, pseudo-genomes have the ancestor's length and agree with each sample at every called position. Repeated-arms family (k in {9,15,21,31,33}): the same two arms around 2..4 different middle bases (every ambiguity code of 2..4 bases stored in every sample), a planted site inside the arm of each copy in turn plus a distant one. Well-formedness family outside the premise (SNP pairs at every distance 1..2k, SNP next to an indel, three alleles at adjacent sites, a sample lacking a region): equal sequence lengths, >= 2 distinct A/C/G/T per column, missing fraction <= m. Cases whose derived samples break (k-1)-mer uniqueness are trivial and not judged for completeness. Every 48th case is repeated through the dev-profile build of the CLI (arithmetic overflow checks on) and must get the same verdict.".into(),
         assumptions: vec!["hash-seed space is a declared finite set (2/3 seeds); thread counts are C11's".into(), "release-profile arithmetic (DESIGN §2)".into()],
         exhaustive_when_uncapped: true,
     }
@@ -266,6 +266,66 @@ pub fn run(ctx: &Ctx, rep: &mut Report) {
         rep.completed.push(format!("planted SNPs k={k}"));
     }
     rep.sample(json!({"k": 15, "sites": [45, 75], "alleles": [[0, 1, 1], [1, 0, 1]], "flip": [false, true, false], "with_ref": true, "m": "0.1", "oracle": "every VCF record at a planted site with REF = ancestor base and true genotypes; pseudo-genomes agree"}));
+    // repeated arms: the ancestor holds the same two arms L, R around different middle bases at 2..4 places (all
+    // (k-1)-mers stay unique, each contains the middle base), so every sample stores an ambiguity code for L.R — every
+    // code with 2..4 bases; one planted site lies inside the arm of each copy in turn, one far away
+    if !rep.capped {
+        for k in [9usize, 15, 21, 31, 33] {
+            let h = (k - 1) / 2;
+            let long = lo::ancestor(24 * k, k, ctx.seed + 19);
+            let arms = lo::ancestor(4 * k, k, ctx.seed + 20);
+            let (l, r) = (arms[k..k + h].to_vec(), arms[2 * k + 3..2 * k + 3 + h].to_vec());
+            for mask in 1u8..16 {
+                let mids: Vec<u8> = [b'A', b'C', b'G', b'T'].iter().enumerate().filter(|(i, _)| mask & (1 << i) != 0).map(|(_, b)| *b).collect();
+                if mids.len() < 2 {
+                    continue;
+                }
+                // ancestor: 4k of unique sequence, then a copy of L m R, then 4k, ...
+                let mut anc: Vec<u8> = long[..4 * k].to_vec();
+                let mut locus_starts = Vec::new();
+                for (j, m) in mids.iter().enumerate() {
+                    locus_starts.push(anc.len());
+                    anc.extend_from_slice(&l);
+                    anc.push(*m);
+                    anc.extend_from_slice(&r);
+                    anc.extend_from_slice(&long[(4 + 4 * j) * k..(8 + 4 * j) * k]);
+                }
+                for (j, ls) in locus_starts.iter().enumerate() {
+                    idx += 1;
+                    if !ctx.mine(idx) {
+                        continue;
+                    }
+                    // a site inside the left arm of copy j (second letter), and one 2k into the first unique stretch
+                    let sites = vec![2 * k, ls + 1];
+                    for alleles in [vec![vec![0u8, 1, 1], vec![1, 0, 1]], vec![vec![1u8, 1, 0, 0], vec![0, 1, 0, 1]]] {
+                        let n = alleles[0].len();
+                        let c = SnpCase { k, ancestor: anc.clone(), sites: sites.clone(), alleles, flip: (0..n).map(|i| i == 1).collect() };
+                        rep.evaluations += 1;
+                        match check(&c, false, "0.1", ctx.seed, &dir) {
+                            Ok(true) => {
+                                rep.nontrivial += 1;
+                                rep.corner("ambiguity_code_from_repeated_arms");
+                                rep.outcome(&(c.planted_columns(), mask, j));
+                            }
+                            Ok(false) => rep.corner("premise_not_met"),
+                            Err(e) if e.starts_with("MACHINERY") => rep.machinery(e),
+                            Err(e) => {
+                                let jv = case_json(&c, false, "0.1", ctx.seed);
+                                rep.violate(format!("repeated arms k={k} mids={} copy={j} n={n}", String::from_utf8_lossy(&mids)), format!("k={k}: arms repeated around middle bases {} (stored as one ambiguity code), site in the arm of copy {j}: {e}", String::from_utf8_lossy(&mids)), jv);
+                            }
+                        }
+                    }
+                    if ctx.expired() {
+                        rep.capped = true;
+                        break;
+                    }
+                }
+            }
+        }
+        if !rep.capped {
+            rep.completed.push("repeated arms".into());
+        }
+    }
     // well-formedness outside the premise
     if !rep.capped {
         for k in [7usize, 15, 21] {
